@@ -99,6 +99,33 @@ def link_family(ctx, keyed, relative, partial, after, api):
                        native=lambda cz, step=step: {"kind": "any", "of": [nat_bytes(cz, step, data), {"kind": "outcome_in", "step": step, "allowed": ["err"]}]})
 
 
+def link_twins(ctx, after, api):
+    """Two different files with identical bytes are linked under two keys; what happens to the second file
+    later must not affect the first entry (whichever file the shared address points at must stay readable as
+    long as that file is intact)."""
+    scn = ctx.new_scn(api=api)
+    D = scn.blob("D", max_len=8)       # short targets: the chunking of the verification read is C19's other families' subject
+    data = scn.whole(D)
+    tag = "C19:%s:twins:%s" % (api, after)
+    first, second = ROOT + "/data/first.bin", ROOT + "/data/second.bin"
+    scn.fs_write(first, data)
+    scn.fs_write(second, data)
+    r1 = scn.link_to("first", first)
+    if not expect_sri(ctx, r1, data, "Sha256", tag + ":link1", "link_to of the first file"):
+        return
+    r2 = scn.link_to("second", second)
+    if not expect_sri(ctx, r2, data, "Sha256", tag + ":link2", "link_to of an identical second file"):
+        return
+    E = scn.blob("E")
+    scn.distinct(E, D)
+    if after == "second-removed":
+        scn.fs_remove(second)
+    elif after == "second-rewritten":
+        scn.fs_set(second, scn.whole(E))
+    expect_bytes(ctx, scn.read("first"), data, tag + ":read-first", "read of the first linked entry after the second file was %s" % after.split("-")[1])
+    expect_bytes(ctx, scn.read_hash(r1.value), data, tag + ":read-hash", "read by address after the second file was %s" % after.split("-")[1])
+
+
 def link_options(ctx, which, api):
     """Declared size / integrity are enforced; an address that already exists as regular content stays regular."""
     scn = ctx.new_scn(api=api)
@@ -171,6 +198,8 @@ def tasks(tier, flavours):
                 if tier == "quick" and fl != "sync" and not keyed:
                     continue
                 out.append(dict(module="C19", family="link_family", flavour=fl, params=dict(keyed=keyed, relative="dotdot", partial=False, after=after, api=api)))
+        for after in ("second-removed", "second-rewritten"):
+            out.append(dict(module="C19", family="link_twins", flavour=fl, params=dict(after=after, api=api)))
         for which in ("size", "integrity", "existing-content"):
             out.append(dict(module="C19", family="link_options", flavour=fl, params=dict(which=which, api=api)))
     return out
